@@ -65,6 +65,13 @@ def _judgeable(doc: Dict[str, Any]) -> bool:
             return False
         if e.get("dur") < 0:
             return False
+        # the generator's promise that makes exact comparison possible: times are multiples of 1/8 us
+        for key in ("ts", "dur"):
+            v = e[key]
+            if isinstance(v, float) and not (v * 8).is_integer():
+                return False
+            if abs(v) >= 2 ** 50:
+                return False
         a = e.get("args") or {}
         if "correlation" in a and not isinstance(a["correlation"], int):
             return False
